@@ -72,9 +72,9 @@ CHECKS.update({
     'C17': _c('runtime monitoring with fault injection: ~60 kinds of rejected calls (bad arguments, syntax errors at every token position, damaged/conflicting files) injected between the steps of random histories; M1-M7 right after each exception and at shutdown',
               'dd.bdd and dd.autoref histories, dynamic reordering off and on; every raising call is followed by the full monitor set, then the history continues and finally everything is released (only the terminal may remain).',
               'A rejected call is one that raises; ' + _NOTE, 'DESIGN.md section 3 C17', 'fault_enumeration'),
-    'C19': _c('runtime monitoring of the compiled wrapper (Cython + gcc) against an instrumented stand-in of the C library: truth-table nodes give the oracle for apply, per-node external reference counters give the ledger for Function handles and temporaries',
-              'dd/cudd.pyx of the working tree is compiled against /verif/fake/cudd and executed: apply with all 27 symbols on every ordered pair of the 256 functions of 3 variables (quantifier forms on cubes), ite, Function operators, cross-check against dd.bdd; histories through the wrapper API with the stand-in as reference ledger after every step, hostile automatic reordering, rejected calls, manager shutdown. dd/cudd_zdd.pyx, dd/sylvan.pyx, dd/buddy.pyx are NOT executed.',
-              'Trusted base: the stand-in /verif/fake/cudd/cudd.h (~450 lines of C on 64-bit truth tables), Cython 3.0.0 and gcc; a toolchain artefact (tracebacks leaked by Cython 3.0.0 on CPython 3.12) is neutralised by clearing dead frames, see DESIGN.md section 5. Only one of the four wrappers is covered.',
+    'C19': _c('runtime monitoring of the compiled wrappers (Cython + gcc) against instrumented stand-ins of the C libraries: truth-table nodes give the oracle for apply, per-node external reference counters give the ledger for Function handles and temporaries',
+              'dd/cudd.pyx, dd/sylvan.pyx and dd/buddy.pyx of the working tree are compiled against /verif/fake/{cudd,sylvan,buddy} and executed: apply with every symbol the wrapper accepts on every ordered pair of the 256 functions of 3 variables (quantifier forms on cubes), ite, Function operators, cross-check against dd.bdd; histories through each wrapper API with the stand-in as reference ledger after every step (CUDD: hostile automatic reordering), rejected calls, manager shutdown. dd/cudd_zdd.pyx is NOT executed.',
+              'Trusted base: the stand-ins under /verif/fake/ (~900 lines of C on 64-bit truth tables), Cython 3.0.0 and gcc; a toolchain artefact (tracebacks leaked by Cython 3.0.0 on CPython 3.12) is neutralised by clearing dead frames, see DESIGN.md section 5. Three of the four wrappers are covered; dd/cudd_zdd.pyx is not.',
               'DESIGN.md section 5'),
     'C18': _c(_TT + ' applied to re-evaluated traversals and parsed graph exports',
               'Every function of <=3 (4: all/sampled) variables and sampled root sets: traversal via Function/succ, descendants/sizes vs own reachability, to_nx graph and DOT text re-read and evaluated.',
